@@ -61,15 +61,25 @@ def run_workers(script, payloads, timeout=900, jobs=NCPU):
 # Coq
 # ----------------------------------------------------------------------------
 
-def ensure_coq_built(quiet=True):
-    """incremental full .vo build of /verif/coq (idempotent, serialised by a lock)"""
+CORE_TARGETS = ["theories/Base/Util.vo", "theories/Equiv/Monitor.vo", "theories/Models/Coro.vo", "theories/Models/StdSpecs.vo"]
+
+
+def ensure_coq_built(pid=None, quiet=True):
+    """incremental .vo build (idempotent, serialised by a lock).  With a property id only the
+    core libraries and that property's theorem file (with everything it depends on) are built, so a
+    broken proof of another property cannot disturb this check."""
     os.makedirs(GEN, exist_ok=True)
     with open(os.path.join(GEN, ".build.lock"), "w") as lock:
         fcntl.flock(lock, fcntl.LOCK_EX)
         if not os.path.exists(os.path.join(COQ_DIR, "Makefile")):
             subprocess.run(["coq_makefile", "-f", "_CoqProject", "-o", "Makefile"], cwd=COQ_DIR, check=True,
                            capture_output=True)
-        p = subprocess.run(["timeout", "3000", "make", f"-j{NCPU}"], cwd=COQ_DIR, capture_output=True, text=True)
+        targets = []
+        if pid is not None:
+            targets = list(CORE_TARGETS)
+            if os.path.exists(os.path.join(COQ_DIR, "theories", "Props", pid + "_Properties.v")):
+                targets.append("theories/Props/%s_Properties.vo" % pid)
+        p = subprocess.run(["timeout", "3000", "make", f"-j{NCPU}"] + targets, cwd=COQ_DIR, capture_output=True, text=True)
         if p.returncode != 0:
             sys.stderr.write(p.stdout[-3000:] + p.stderr[-3000:])
             return False, (p.stdout + p.stderr)[-3000:]
